@@ -53,7 +53,7 @@ def main():
     with concurrent.futures.ThreadPoolExecutor(max_workers=6) as ex:
         for name, r in ex.map(lambda s: run_seed(*s), seeds):
             out[name] = r
-            print(name, "fired:", {k: v["rules"] for k, v in r.get("fired", {}).items()} if r.get("applies") else "PATCH DOES NOT APPLY")
+            print(name, "fired:", {k: v["rules"] for k, v in r.get("fired", {}).items()} if r.get("applies") else "PATCH DOES NOT APPLY (not counted)")
     json.dump(out, open(mpath, "w"), indent=1, sort_keys=True)
     # markdown
     lines = ["| seeded change | property | caught by (check: rules) | own check fires |", "|---|---|---|---|"]
@@ -69,7 +69,8 @@ def main():
         lines.append("| %s | %s | %s | %s |" % (n, meta.get("property"), desc, "yes" if own else "no"))
     open(os.path.join(sd, "MATRIX.md"), "w").write("\n".join(lines) + "\n")
     missed = [n for n in out if out[n].get("applies") and not out[n]["fired"]]
-    print("seeds:", len(out), "missed:", missed)
+    na = [n for n in out if not out[n].get("applies")]
+    print("seeds:", len(out), "missed:", missed, "patch does not apply:", na)
 
 if __name__ == "__main__":
     main()
